@@ -33,9 +33,10 @@ import (
 // then proves progress with a well-formed sentinel on the same socket.
 
 type c08Input struct {
-	class string
-	data  []byte
-	raw   bool // stream endpoints: write to a plain TCP connection that is then left open
+	class  string
+	data   []byte
+	raw    bool // stream endpoints: write to a plain TCP connection that is then left open
+	stream int  // stream endpoints: repeat data until this many bytes are written (or the peer stops taking them)
 }
 
 // c08Endpoint is one receiving loop under test.
@@ -687,6 +688,9 @@ func c08NTSKEInputs(r *ev.Run, rng *rand.Rand, e *c08Env) []c08Input {
 		}
 		add("ntske-many-cookie-records", append(b, rec(0x8000, nil)...))
 	}
+	// a client that never ends its message: cookie records of the maximum size, streamed for as long as
+	// the server takes them (up to 1 GiB or 8 s); what the server keeps of them shows in its memory
+	in = append(in, c08Input{class: "ntske-endless-cookie-records", data: rec(5, randBytes(rng, 65535)), stream: 1 << 30})
 	return in
 }
 
@@ -720,6 +724,16 @@ func c08SendTLS(alpn string) func(e *c08Env, in c08Input) error {
 			c, err := tls.DialWithDialer(d, "tcp", netip.AddrPortFrom(e.srv, ntske.ServerPortIP).String(),
 				&tls.Config{InsecureSkipVerify: true, NextProtos: []string{alpn}, MinVersion: tls.VersionTLS13})
 			if err != nil {
+				return
+			}
+			if in.stream > 0 {
+				_ = c.SetDeadline(time.Now().Add(8 * time.Second))
+				for sent := 0; sent < in.stream; sent += len(b) {
+					if _, err := c.Write(b); err != nil {
+						break
+					}
+				}
+				_ = c.Close()
 				return
 			}
 			_ = c.SetDeadline(time.Now().Add(300 * time.Millisecond))
